@@ -106,11 +106,12 @@ prop("C06", [
 prop("C07", [
     S(RULES, "^TestC07Regress$", kind="plain"),
     S(RULES, "^TestC07Syscalls$", kind="plain"),
+    S(RULES, "^TestC07NumberSweeps$", kind="plain"),
     S(RULES, "^TestC07$", q=30000, t=1000000, shards=16, timeout_t=3000),
 ], ["string values: non-empty, no whitespace, none of ' \" \\ (ToCommandLine does not quote)",
     "rules with a perm filter use an existing scratch file for path= and an existing scratch directory for dir= (watch-shaped rules agree with the filesystem)",
     "runs on amd64 with resolveIds=false", "known finding arch-not-first-reordered: equality up to moving the arch triple to the front"],
-   nontrivial_classes=["accepted", "operator-not-equal-sign", "id-ge-2^31", "arch-other-than-runtime", "numeric-syscall", "multi-key", "displayed-as-watch"])
+   nontrivial_classes=["number-sweeps", "accepted", "operator-not-equal-sign", "id-ge-2^31", "arch-other-than-runtime", "numeric-syscall", "multi-key", "displayed-as-watch"])
 
 prop("C13", [
     S(RULES, "^TestC13Regress$", kind="plain"),
@@ -210,7 +211,7 @@ prop("C09", [
 
 prop("C15", [
     S(COAL, "^TestC15Regress$", kind="plain"),
-    S(COAL, "^TestC15$", q=3000, t=50000, shards=16),
+    S(COAL, "^TestC15$", q=3000, t=25000, shards=16),
     S(COAL, "^TestC15CacheChurn$", kind="plain", timeout_t=3000),
     S(COAL, "^TestC15TableIsolation$", kind="plain"),
     S(COAL, "^TestC15FirstSight$", kind="plain", race=True, q=20, t=300),
@@ -224,10 +225,11 @@ prop("C15", [
 TABLES = "props/tables"
 
 prop("C20", [
+    S(TABLES, "^TestFirstUseC20$", kind="plain"),
     S(TABLES, "^TestC20", kind="plain"),
 ], ["internal consistency only, as the property states; agreement with the kernel headers is informational here and enforced by C06 / C12 / C16",
     "the name->type table is read from the generated source file of the working tree (it is not exported)"],
-   nontrivial_classes=["table-syscall-displayed", "table-syscall-resolved", "table-errno-displayed", "table-normalization-compound", "table-record-type", "table-record-type-name", "table-errno-number", "table-errno-name", "table-arch", "table-syscall",
+   nontrivial_classes=["table-first-use", "table-syscall-displayed", "table-syscall-resolved", "table-errno-displayed", "table-normalization-compound", "table-record-type", "table-record-type-name", "table-errno-number", "table-errno-name", "table-arch", "table-syscall",
                        "table-rule-field", "table-rule-operator", "table-rule-comparison", "table-normalization-syscall", "table-normalization-record-type"])
 
 prop("C11", [
